@@ -307,7 +307,16 @@ class Machine:
             ri = np.array([c[0] - (n if t.flag(1, 5) else 0) for c in cells])
             ci = np.array([c[1] for c in cells])
             self.hist.append(('fancy', ri.tolist(), ci.tolist()))
+            ri0, ci0 = ri.copy(), ci.copy()
             self.sut(a.__setitem__, (ri, ci), v)
+            if not (np.array_equal(ri, ri0) and np.array_equal(ci, ci0)):
+                self.bad('index_arrays_modified', 'a[(rows, cols)] = v rewrote the caller\'s index arrays: %s,%s -> %s,%s' %
+                         (ri0.tolist(), ci0.tolist(), ri.tolist(), ci.tolist()))
+            got = self.sut(a.__getitem__, (ri, ci))
+            if not (np.array_equal(ri, ri0) and np.array_equal(ci, ci0)):
+                self.bad('index_arrays_modified', 'a[(rows, cols)] rewrote the caller\'s index arrays')
+            if not eqv(np.asarray(got).reshape(-1), np.asarray(v).reshape(-1)):
+                self.bad('element_differs', 'a[(rows, cols)] read back %s after writing %s' % (np.asarray(got).tolist(), np.asarray(v).tolist()))
             for (i, j), x in zip(cells, v):
                 rows[i][j] = x
         elif op == 'fancy_int':
